@@ -102,6 +102,7 @@ func execCases(casesPath, tracePath string) {
 	sc := bufio.NewScanner(in)
 	sc.Buffer(make([]byte, 1<<20), 1<<28)
 	n := 0
+	canaryChanged() // what the fixed values give before the first case
 	for sc.Scan() {
 		line := sc.Bytes()
 		if len(line) == 0 {
@@ -154,6 +155,9 @@ func execCases(casesPath, tracePath string) {
 				}
 			}()
 			run(raw, w)
+			if canaryChanged() {
+				w.Emit(Ev{"ev": "crash", "msg": "canary: fixed values through fresh objects give something else after this case"})
+			}
 		}()
 		close(done)
 		n++
